@@ -15,7 +15,9 @@ CONSTANTS
     Mode = "local"
     UpgradeSend = "drop"
     UpgraderSem = "drop"
-    UpgradeRecheck = TRUE
+    Reloads = {}
+    IOFaults = FALSE
+    UpgradeRecheck = "full"
     MaxCalls = 2
     Kinds = {"auth", "update", "remove", "add", "setadmin", "list"}
     InitFiles <- MCInit2
